@@ -374,13 +374,29 @@ type runCfg struct {
 	hist     *synth.Hist // of a prior run: the history it analyses (nil: the history of the case)
 	samePipe bool        // of a prior run: the run of the case re-uses the Pipeline object as well (then hist is nil)
 	upto     int         // of a prior run: > 0: it analyses only the first upto commits (a parent-closed prefix)
+	// kind oddir (round 4, byte content of the configured directory name): the hibernation directory is
+	// <fresh directory>/<dirName>, bytes kept as they are (trailing / leading ASCII and Unicode white space, BOM, invalid
+	// UTF-8, case variants, trailing slash ...); twin: the directories a "normalisation" of the name would lead to
+	// (TrimSpace, ToLower, ToValidUTF8, Clean ...) exist next to it and must stay empty
+	dirName string
+	twin    bool
+	// tickHours > 0: TicksSinceStart.TickSize (hours per tick; default 24) - the commit times of the synthetic histories
+	// are not multiples of the tick (R4-3 x hibernation); the run without hibernation uses the same value
+	tickHours int
 }
 
 func (cfg runCfg) optsSx() []Sx {
-	if !cfg.noFiles && !cfg.noPeople && !cfg.defDir {
-		return nil
+	var res []Sx
+	if cfg.noFiles || cfg.noPeople || cfg.defDir {
+		res = append(res, T("opts", T("nofiles", B(cfg.noFiles)), T("nopeople", B(cfg.noPeople)), T("defdir", B(cfg.defDir))))
 	}
-	return []Sx{T("opts", T("nofiles", B(cfg.noFiles)), T("nopeople", B(cfg.noPeople)), T("defdir", B(cfg.defDir)))}
+	if cfg.tickHours > 0 {
+		res = append(res, T("tickh", I(cfg.tickHours)))
+	}
+	if cfg.dirName != "" {
+		res = append(res, T("hdir", T("name", Bytes([]byte(cfg.dirName)).List...), T("twin", B(cfg.twin)), T("shown", A(shownName(cfg.dirName)))))
+	}
+	return res
 }
 
 type outcome struct {
@@ -425,6 +441,7 @@ type runObs struct {
 	plan      []verifapi.VerifAction
 	commits   []*object.Commit
 	planSame  bool
+	stray     int // kind oddir: the largest number of files seen in the twin directories (before any step, after the run)
 }
 
 var baseDir string
@@ -540,6 +557,7 @@ func doRun(h *synth.Hist, G, S int, cfg runCfg) (ro runObs) {
 	var p *hercules.Pipeline
 	var leaf hercules.LeafPipelineItem
 	var livePlan []verifapi.VerifAction
+	var twins []string
 	cur := cfg
 	curCommits := commits
 	onProgress := func(step, total int, text string) {
@@ -548,6 +566,9 @@ func doRun(h *synth.Hist, G, S int, cfg runCfg) (ro runObs) {
 			rec.step = step - 1
 			rec.texts = append(rec.texts, text)
 			rec.listings = append(rec.listings, rec.list())
+			if n := strayFiles(twins); n > ro.stray {
+				ro.stray = n
+			}
 			if cfg.tamper != nil && cfg.tamper.at == "step" && !rec.fired && rec.dir != "" {
 				files, _ := filepath.Glob(filepath.Join(rec.dir, "*-hercules.bin"))
 				sort.Strings(files)
@@ -634,6 +655,9 @@ func doRun(h *synth.Hist, G, S int, cfg runCfg) (ro runObs) {
 			leaves.ConfigBurndownHibernationThreshold: cfg.thr,
 			leaves.ConfigBurndownHibernationToDisk:    false,
 		}
+		if cfg.tickHours > 0 {
+			facts["TicksSinceStart.TickSize"] = cfg.tickHours
+		}
 		if isScale {
 			// the diffs of the large histories must not depend on the load of the machine
 			facts["FileDiff.Timeout"] = 600000
@@ -660,6 +684,23 @@ func doRun(h *synth.Hist, G, S int, cfg runCfg) (ro runObs) {
 				}
 			default:
 				os.MkdirAll(dir, 0755)
+				if cfg.dirName != "" {
+					// the bytes of the name are kept as they are (no filepath.Join, which would clean the path)
+					root := dir
+					dir = root + "/" + cfg.dirName
+					if err := os.MkdirAll(dir, 0755); err != nil {
+						panic("oddir: cannot create " + fmt.Sprintf("%q", dir) + ": " + err.Error())
+					}
+					twins = nil
+					if cfg.twin {
+						for _, t := range twinNames(cfg.dirName) {
+							if os.MkdirAll(root+"/"+t, 0755) == nil && !sameDir(root+"/"+t, dir) {
+								twins = append(twins, root+"/"+t)
+							}
+						}
+					}
+					twins = append(twins, root)
+				}
 			}
 			rec.dir = dir
 			facts[leaves.ConfigBurndownHibernationToDisk] = true
@@ -732,6 +773,9 @@ func doRun(h *synth.Hist, G, S int, cfg runCfg) (ro runObs) {
 		fmt.Fprintf(os.Stderr, "c09 debug: %s %s: %.300s\n", ro.out.kind, ro.out.digest, ro.out.text)
 	}
 	ro.final = rec.list()
+	if n := strayFiles(twins); n > ro.stray {
+		ro.stray = n
+	}
 	// the executed plan: the dump gives every action except the 2nd.. items of hibernate / boot actions;
 	// those are recomputed by the real insertHibernateBoot (deterministic) from the dumped base plan and
 	// the result must agree with the dump and with the actions announced through OnProgress
@@ -892,11 +936,11 @@ func emitCase(c *Config, in caseIn) { emitCaseWith(c, in, nil) }
 // probing run of a large history).
 func emitCaseWith(c *Config, in caseIn, pre *runObs) {
 	hsx := histSx(in.h)
-	key := hsx.String() + fmt.Sprint(in.G, in.S, in.cfg.noFiles, in.cfg.noPeople)
+	key := hsx.String() + fmt.Sprint(in.G, in.S, in.cfg.noFiles, in.cfg.noPeople, in.cfg.tickHours)
 	// The run without hibernation.  When the run of the case re-uses a Pipeline object (kind rerun, prior.samePipe) the
 	// twin does the same without hibernation: the other items of a re-used pipeline keep state of their own (the people
 	// dictionary of the identity detector is not regenerated, for one), which is not a matter of this property.
-	baseCfg := runCfg{wrap: false, noFiles: in.cfg.noFiles, noPeople: in.cfg.noPeople}
+	baseCfg := runCfg{wrap: false, noFiles: in.cfg.noFiles, noPeople: in.cfg.noPeople, tickHours: in.cfg.tickHours}
 	if pc := in.cfg.prior; pc != nil && pc.samePipe {
 		baseCfg.prior = &runCfg{fault: "none", samePipe: true, upto: pc.upto}
 		key += fmt.Sprint(" samepipe ", pc.upto)
@@ -922,15 +966,30 @@ func emitCaseWith(c *Config, in caseIn, pre *runObs) {
 	// The theorem compares a plan with ITS OWN erasure, and prepareRunPlan is not deterministic across calls: when two
 	// successful runs differ and followed different base plans, look for a baseline run on the base plan of this run.
 	baseRetries := 0
+	baseAny := false
 	if _, big := scaleOf[in.h]; !big && ro.out.kind == "ok" && base.out.kind == "ok" && ro.out.digest != base.out.digest {
 		want := planSx(basePlanOf2(ro.plan), ro.commits).String()
 		tries := 16
 		if _, isView := viewOf[in.h]; isView {
 			tries = 60
+			if strings.Contains(in.kind, "picked") {
+				// up to 5 concurrent arms: more base plans to choose from
+				tries = 200
+			}
 		}
+		byResult := map[string]runObs{}
 		for baseRetries < tries && planSx(base.plan, base.commits).String() != want {
 			baseRetries++
 			base = doRun(in.h, in.G, in.S, baseCfg)
+			if base.out.kind == "ok" {
+				byResult[base.out.digest] = base
+			}
+		}
+		if b2, ok := byResult[ro.out.digest]; ok && strings.Contains(in.kind, "picked") && planSx(base.plan, base.commits).String() != want {
+			// five concurrent arms have more base plans than can be tried: the history passed the stability filter and
+			// still has two results without hibernation; the result of this run is one of them (obs baseany)
+			base = b2
+			baseAny = true
 		}
 	}
 	rec := ro.rec
@@ -953,6 +1012,12 @@ func emitCaseWith(c *Config, in caseIn, pre *runObs) {
 		T("baseretry", I(baseRetries))}
 	if in.cfg.prior != nil {
 		obs = append(obs, T("priorres", ro.prior.sx(), I(ro.priorLeft)))
+	}
+	if in.cfg.dirName != "" {
+		obs = append(obs, T("stray", I(ro.stray)))
+	}
+	if baseAny {
+		obs = append(obs, T("baseany", I(1)))
 	}
 	obs = append(obs,
 		T("plan0", planSx(base.plan, base.commits)),
@@ -993,6 +1058,20 @@ func parseCase(s Sx) caseIn {
 			return ok && x.Args()[0].Int() != 0
 		}
 		in.cfg.noFiles, in.cfg.noPeople, in.cfg.defDir = b("nofiles"), b("nopeople"), b("defdir")
+	}
+	if o, ok := s.Field("tickh"); ok {
+		in.cfg.tickHours = o.Args()[0].Int()
+	}
+	if o, ok := s.Field("hdir"); ok {
+		nm, _ := o.Field("name")
+		var bs []byte
+		for _, x := range nm.Args() {
+			bs = append(bs, byte(x.Int()))
+		}
+		in.cfg.dirName = string(bs)
+		if x, ok := o.Field("twin"); ok {
+			in.cfg.twin = x.Args()[0].Int() != 0
+		}
 	}
 	parseFault(get("fault"), &in.cfg)
 	if pr, ok := s.Field("prior"); ok {
@@ -1200,7 +1279,13 @@ func main() {
 	if want("rerun") {
 		rerunCases(c)
 	}
-	if os.Getenv("C09_ONLY") == "stability" {
+	if want("picked") {
+		pickedCases(c)
+	}
+	if want("oddir") {
+		oddDirCases(c)
+	}
+	if os.Getenv("C09_ONLY") == "stability" || os.Getenv("C09_ONLY") == "pickstab" {
 		stabilityExperiment(c)
 	}
 	if want("scale") {
